@@ -155,8 +155,6 @@ Definition store_classes : list (str * str * str * sclass) :=
    ([95; 110; 97; 109; 101; 115; 112; 97; 99; 101; 46; 112; 121], [78; 97; 109; 101; 115; 112; 97; 99; 101; 46; 95; 97; 100; 100; 95; 110; 101; 115; 116; 101; 100; 95; 110; 97; 109; 101; 115; 112; 97; 99; 101], [60; 112; 97; 114; 97; 109; 32; 110; 101; 115; 116; 101; 100; 62; 32; 118; 105; 97; 32; 110; 101; 115; 116; 101; 100; 46; 95; 112; 97; 114; 101; 110; 116], CReviewedSetup) (* _namespace.py Namespace._add_nested_namespace : <param nested> via nested._parent -- runs while the namespace tree / language context / environment / generator is constructed; the caller hands over an object it built for that purpose *);
    ([95; 117; 116; 105; 108; 105; 116; 105; 101; 115; 46; 112; 121], [68; 101; 102; 97; 117; 108; 116; 86; 97; 108; 117; 101; 46; 97; 115; 115; 105; 103; 110; 95; 116; 111; 95; 105; 102; 95; 110; 111; 116; 95; 100; 101; 102; 97; 117; 108; 116], [60; 112; 97; 114; 97; 109; 32; 116; 97; 114; 103; 101; 116; 62; 32; 118; 105; 97; 32; 116; 97; 114; 103; 101; 116; 91; 93], CReviewedSetup) (* _utilities.py DefaultValue.assign_to_if_not_default : <param target> via target[] -- runs while the namespace tree / language context / environment / generator is constructed; the caller hands over an object it built for that purpose *);
    ([95; 117; 116; 105; 108; 105; 116; 105; 101; 115; 46; 112; 121], [100; 101; 101; 112; 95; 117; 112; 100; 97; 116; 101], [60; 112; 97; 114; 97; 109; 32; 116; 97; 114; 103; 101; 116; 62; 32; 118; 105; 97; 32; 116; 97; 114; 103; 101; 116; 91; 93], CReviewedSetup) (* _utilities.py deep_update : <param target> via target[] -- runs while the namespace tree / language context / environment / generator is constructed; the caller hands over an object it built for that purpose *);
-   ([106; 105; 110; 106; 97; 47; 95; 95; 105; 110; 105; 116; 95; 95; 46; 112; 121], [67; 111; 100; 101; 71; 101; 110; 101; 114; 97; 116; 111; 114; 46; 95; 95; 97; 117; 103; 109; 101; 110; 116; 95; 112; 111; 115; 116; 95; 112; 114; 111; 99; 101; 115; 115; 111; 114; 115; 95; 119; 105; 116; 104; 95; 108; 110; 95; 108; 105; 109; 105; 116; 95; 101; 109; 112; 116; 121; 95; 108; 105; 110; 101; 115], [60; 112; 97; 114; 97; 109; 32; 112; 111; 115; 116; 95; 112; 114; 111; 99; 101; 115; 115; 111; 114; 115; 62; 32; 118; 105; 97; 32; 112; 111; 115; 116; 95; 112; 114; 111; 99; 101; 115; 115; 111; 114; 115; 46; 97; 112; 112; 101; 110; 100; 40; 41], CReviewedSetup) (* jinja/__init__.py CodeGenerator.__augment_post_processors_with_ln_limit_empty_lines : <param post_processors> via post_processors.append() -- runs while the namespace tree / language context / environment / generator is constructed; the caller hands over an object it built for that purpose *);
-   ([106; 105; 110; 106; 97; 47; 95; 95; 105; 110; 105; 116; 95; 95; 46; 112; 121], [67; 111; 100; 101; 71; 101; 110; 101; 114; 97; 116; 111; 114; 46; 95; 95; 97; 117; 103; 109; 101; 110; 116; 95; 112; 111; 115; 116; 95; 112; 114; 111; 99; 101; 115; 115; 111; 114; 115; 95; 119; 105; 116; 104; 95; 108; 110; 95; 116; 114; 105; 109; 95; 116; 114; 97; 105; 108; 105; 110; 103; 95; 119; 104; 105; 116; 101; 115; 112; 97; 99; 101], [60; 112; 97; 114; 97; 109; 32; 112; 111; 115; 116; 95; 112; 114; 111; 99; 101; 115; 115; 111; 114; 115; 62; 32; 118; 105; 97; 32; 112; 111; 115; 116; 95; 112; 114; 111; 99; 101; 115; 115; 111; 114; 115; 46; 105; 110; 115; 101; 114; 116; 40; 41], CReviewedSetup) (* jinja/__init__.py CodeGenerator.__augment_post_processors_with_ln_trim_trailing_whitespace : <param post_processors> via post_processors.insert() -- runs while the namespace tree / language context / environment / generator is constructed; the caller hands over an object it built for that purpose *);
    ([106; 105; 110; 106; 97; 47; 95; 95; 105; 110; 105; 116; 95; 95; 46; 112; 121], [67; 111; 100; 101; 71; 101; 110; 101; 114; 97; 116; 111; 114; 46; 95; 102; 105; 108; 116; 101; 114; 95; 97; 110; 100; 95; 119; 114; 105; 116; 101; 95; 108; 105; 110; 101], [60; 112; 97; 114; 97; 109; 32; 111; 117; 116; 112; 117; 116; 95; 102; 105; 108; 101; 62; 32; 118; 105; 97; 32; 111; 117; 116; 112; 117; 116; 95; 102; 105; 108; 101; 46; 119; 114; 105; 116; 101; 40; 41], CPerFileLocal) (* jinja/__init__.py CodeGenerator._filter_and_write_line : <param output_file> via output_file.write() -- the file being written *);
    ([106; 105; 110; 106; 97; 47; 95; 95; 105; 110; 105; 116; 95; 95; 46; 112; 121], [83; 117; 112; 112; 111; 114; 116; 71; 101; 110; 101; 114; 97; 116; 111; 114; 46; 95; 95; 105; 110; 105; 116; 95; 95], [60; 112; 97; 114; 97; 109; 32; 107; 119; 97; 114; 103; 115; 62; 32; 118; 105; 97; 32; 107; 119; 97; 114; 103; 115; 46; 117; 112; 100; 97; 116; 101; 40; 41], CPerFileLocal) (* jinja/__init__.py SupportGenerator.__init__ : <param kwargs> via kwargs.update() -- the ** dictionary packed for this call *);
    ([106; 105; 110; 106; 97; 47; 101; 110; 118; 105; 114; 111; 110; 109; 101; 110; 116; 46; 112; 121], [67; 111; 100; 101; 71; 101; 110; 69; 110; 118; 105; 114; 111; 110; 109; 101; 110; 116; 66; 117; 105; 108; 100; 101; 114; 46; 97; 100; 100; 95; 102; 105; 108; 116; 101; 114; 115], [60; 112; 97; 114; 97; 109; 32; 97; 100; 100; 105; 116; 105; 111; 110; 97; 108; 95; 102; 105; 108; 116; 101; 114; 115; 62; 32; 118; 105; 97; 32; 115; 101; 108; 102; 46; 95; 97; 100; 100; 105; 116; 105; 111; 110; 97; 108; 95; 102; 105; 108; 116; 101; 114; 115; 46; 117; 112; 100; 97; 116; 101; 40; 41], CReviewedSetup) (* jinja/environment.py CodeGenEnvironmentBuilder.add_filters : <param additional_filters> via self._additional_filters.update() -- runs while the namespace tree / language context / environment / generator is constructed; the caller hands over an object it built for that purpose *);
@@ -320,4 +318,13 @@ Definition read_ok (r : wread) : bool :=
 
 (* a type's rendering can see the INPUT SET of the run exactly when some wide read is not accounted for *)
 Definition reads_leak (reads : list wread) : bool := negb (forallb read_ok reads).
+
+(* a classification / review row that no scanned item matches any more is stale (the code it excused is gone or has changed):
+   it must be removed, so that it cannot excuse something else later *)
+Definition store_class_used (stores : list store) (e : str * str * str * sclass) : bool :=
+  existsb (fun s => str_eqb (fst (fst (fst e))) (st_file s) && str_eqb (snd (fst (fst e))) (st_fn s) && str_eqb (snd (fst e)) (st_target s)) stores.
+Definition read_class_used (reads : list wread) (e : str * str * str * wclass) : bool :=
+  existsb (fun r => str_eqb (fst (fst (fst e))) (w_file r) && str_eqb (snd (fst (fst e))) (w_where r) && str_eqb (snd (fst e)) (w_name r)) reads.
+Definition modobj_review_used (objs : list modobj) (e : str * str * str * str) : bool :=
+  existsb (fun o => str_eqb (fst (fst (fst e))) (mo_file o) && str_eqb (snd (fst (fst e))) (mo_name o)) objs.
 
